@@ -66,7 +66,7 @@ def mirror_table(rep, F, fn, sink_pat, rule='R-SIGN'):
             if not sinks:
                 bad.append(((sign, mode), 'no rounding routine on this path: %s' % TB.show(out)[:80]))
                 continue
-            ctxarg = TB.deref(sinks[0][2][-1])
+            ctxarg = TB.deref(TB.reduce_option(F, sinks[0][2][-1]))
             want_mode = DIRECTED_MIRROR.get(mode) if sign == 'Minus' else None
             if want_mode is None:
                 ok = ctxarg == T('param', R.ctx_param_index(fn))
